@@ -1,8 +1,24 @@
+//! Node-level harness (p2panda Node API, processing pipeline, child processes on file databases).
+//!
+//! C01 (node part), C04, C14, C15 (+ the child modes `c15-child` / `c15-replay`).
+
+mod c01;
+mod c04;
+mod c14;
+mod c15;
+mod common;
+
 use vh_common::Args;
 
 fn main() {
     let args = Args::parse();
     match args.prop.as_str() {
-        other => panic!("vh-node does not serve {other} yet"),
+        "C01" => c01::run(&args),
+        "C04" => c04::run(&args),
+        "C14" => c14::run(&args),
+        "C15" => c15::run(&args),
+        "c15-child" => c15::child(&args),
+        "c15-replay" => c15::replay_child(&args),
+        other => panic!("vh-node does not serve {other}"),
     }
 }
